@@ -453,17 +453,24 @@ impl Prop {
 }
 
 pub fn gen_value_spec(rng: &mut Rng, prop: Prop) -> ValueSpec {
-    let list = rng.below(5) == 0;
-    match (prop, list) {
-        (Prop::C12, false) => ValueSpec::Version(gen_vsrc(rng)),
-        (Prop::C12, true) => {
-            let n = rng.usize_below(9);
-            ValueSpec::VersionList((0..n).map(|_| gen_vsrc(rng)).collect())
-        }
-        (Prop::C13, false) => ValueSpec::Range(gen_rsrc(rng, 2)),
-        (Prop::C13, true) => {
-            let n = rng.usize_below(6);
-            ValueSpec::RangeList((0..n).map(|_| gen_rsrc(rng, 1)).collect())
+    use crate::plan::Shape;
+    let shape = match rng.below(20) {
+        0..=10 => Shape::One,
+        11..=13 => Shape::Many,
+        14..=15 => Shape::Entry,
+        16..=17 => Shape::Tagged,
+        _ => Shape::Keyed,
+    };
+    let n = match shape {
+        Shape::Many => rng.usize_below(if prop == Prop::C12 { 9 } else { 6 }),
+        Shape::Keyed => rng.usize_below(5),
+        _ => 1,
+    };
+    match prop {
+        Prop::C12 => ValueSpec::Versions { shape, items: (0..n).map(|_| gen_vsrc(rng)).collect() },
+        Prop::C13 => {
+            let depth = if shape == Shape::One { 2 } else { 1 };
+            ValueSpec::Ranges { shape, items: (0..n).map(|_| gen_rsrc(rng, depth)).collect() }
         }
     }
 }
